@@ -372,10 +372,14 @@ class MgmComputation(VariableComputation):
             self.value_selection(self.current_value, cost)
 
             new_values, val_cost = self._compute_best_value()
-            self._gain = self.current_cost - val_cost
-            if ((self._mode == "min") & (self._gain > 0)) or (
-                (self._mode == "max") & (self._gain < 0)
-            ):
+            # The gain is the improvement brought by the best value: it is >= 0
+            # whatever the mode, so that the largest gain is always the best move.
+            if self._mode == "min":
+                self._gain = self.current_cost - val_cost
+            else:
+                self._gain = val_cost - self.current_cost
+            self._new_cost = val_cost
+            if self._gain > 0:
                 self._new_value = random.choice(new_values)
             else:
                 self._new_value = self.current_value
@@ -523,7 +527,7 @@ class MgmComputation(VariableComputation):
                         f"Selects new value {self._new_value}, "
                         f"best gain: {self._gain} > {gains}"
                     )
-                self.value_selection(self._new_value, self.current_cost - self._gain)
+                self.value_selection(self._new_value, self._new_cost)
             elif self._gain == max_neighbors:
                 # same gain, break ties through variable ordering to
                 # determine which variable can change its value
@@ -562,7 +566,7 @@ class MgmComputation(VariableComputation):
                         f"Won random ties for equal gain {self._gain} , "
                         f"selects new value {self._new_value} - {ties}"
                     )
-                self.value_selection(self._new_value, self.current_cost - self._gain)
+                self.value_selection(self._new_value, self._new_cost)
             else:
                 if self.logger.isEnabledFor(logging.INFO):
                     self.logger.info(
@@ -584,7 +588,7 @@ class MgmComputation(VariableComputation):
                         f"Won lexic ties for equal gain {self._gain} , "
                         f"selects new value {self._new_value} - {ties}"
                     )
-                self.value_selection(self._new_value, self.current_cost - self._gain)
+                self.value_selection(self._new_value, self._new_cost)
             else:
                 if self.logger.isEnabledFor(logging.INFO):
                     self.logger.info(
